@@ -35,6 +35,7 @@ Correspondence: acceptance and the multiset of error diagnostics (message) of th
 must equal `accepted` and the multiset of `category` of the model's violations."""
 import os
 import re
+import shutil
 import time
 
 import common
@@ -970,14 +971,37 @@ def jsonable(case):
     return c
 
 
+FRONT_END_ONLY = ["none"]      # C09 is about acceptance: no program is executed
+
+
+def private_work(env):
+    """a work directory of this process only (a concurrent check of the same property wipes the shared one)"""
+    tag = ".%d" % os.getpid()
+    if not env.work.endswith(tag):
+        env.work = env.work + tag
+    os.makedirs(env.work, exist_ok=True)
+
+
+def run_front_end(env, name, cases):
+    pairs = [(c["id"], c["source"]) for c in cases]
+    for attempt in range(2):
+        try:
+            os.makedirs(env.work, exist_ok=True)
+            return langrun.run_impl(env, name, pairs, FRONT_END_ONLY, timeout=300)
+        except OSError:
+            time.sleep(1)           # a work file vanished under us: once more in a fresh directory
+    return {}
+
+
 def evaluate(env, cases, name, model=True):
-    recs = langrun.run_impl(env, name, [(c["id"], c["source"]) for c in cases], ["nn"])
+    private_work(env)
+    recs = run_front_end(env, name, cases)
     # a case without a verdict is either a front-end crash (reproducible) or a harness binary that was
     # being relinked by a concurrent build while this batch ran: run such cases once more, alone
     missing = [c for c in cases if recs.get(c["id"]) is None or recs[c["id"]].get("accepted") is None]
     if missing:
         time.sleep(3)
-        again = langrun.run_impl(env, name + "_retry", [(c["id"], c["source"]) for c in missing], ["nn"])
+        again = run_front_end(env, name + "_retry", missing)
         for cid, r in again.items():
             if r.get("accepted") is not None or recs.get(cid) is None:
                 recs[cid] = r
@@ -1039,10 +1063,12 @@ def correspond(env, searching=False, model=True):
             if c["stream"] == "injected" and len(samples) < 5 and evaluations % 211 == 0:
                 samples.append({"kind": c["kind"], "context": c["context"], "expected": [c["expect"]["message"], c["expect"]["label"]],
                                 "diags": [(x["message"], x["label"]) for x in (diag_tuple(y) for y in r["diags"]) if x["severity"] == "error"]})
+    if env.work.endswith(".%d" % os.getpid()):
+        shutil.rmtree(env.work, ignore_errors=True)
     return {
         "evaluations": evaluations,
         "distinct_nontrivial": len(nontrivial),
-        "rule": "each case = one program through the real Lexer/Parser/Resolver and, when it parses, through the extracted StaticRules.check on the "
+        "rule": "each case = one program through the real Lexer/Parser/Resolver (front end only, nothing is executed) and, when it parses, through the extracted StaticRules.check on the "
                 "dumped AST; streams: well-formed by construction (oracle: accepted), one single-rule injection per program at a random slot/nesting "
                 "context or in place (oracle: rejected with the message+label of the broken rule, nothing outside its cascade), keyed corpus; "
                 "non-trivial = distinct injected program whose expected diagnostic was produced, or distinct accepted program with a function and a nested block",
@@ -1058,6 +1084,9 @@ def correspond(env, searching=False, model=True):
     }
 
 
+SHRINK_BUDGET_S = 60
+
+
 def shrink(env, case):
     """a well-formed program that is rejected: delete lines while it still parses and is rejected with
     exactly the same error diagnostics (so no deletion that itself breaks a rule survives)"""
@@ -1067,22 +1096,32 @@ def shrink(env, case):
     if len(lines) > 400:
         return case
     tag = [0]
+    deadline = time.time() + SHRINK_BUDGET_S
 
     def errors_of(cand):
+        if time.time() > deadline:
+            raise TimeoutError("shrink budget used up")
         c = dict(case, source="\n".join(cand) + "\n", id="sh")
         tag[0] += 1
         (_, r, _o, _d), = evaluate(env, [c], "shrink%d" % (tag[0] % 4), model=False)
         if r is None or r.get("parse") != 0 or r.get("accepted") is not False:
             return None
         return sorted((d["message"], d["label"]) for d in (diag_tuple(x) for x in r["diags"]) if d["severity"] == "error")
+    best = [lines]
+
+    def keeps(cand):
+        if errors_of(cand) == want:
+            best[0] = cand
+            return True
+        return False
     try:
         want = errors_of(lines)
         if not want:
             return case
-        small = common.ddmin_lines(lines, lambda cand: errors_of(cand) == want, keep_head=0)
-        return dict(case, source="\n".join(small) + "\n")
+        common.ddmin_lines(lines, keeps, keep_head=0)
     except Exception:
-        return case
+        pass                        # budget used up or a harness hiccup: report the smallest input found so far
+    return dict(case, source="\n".join(best[0]) + "\n")
 
 
 def replay(env, payload):
